@@ -55,7 +55,7 @@ let () =
     | [id; "S"; nu; cts; mans; opss; _] ->
       (* store-level model (Model/GraphStore.v, repaired gcIndex):
          P<n> Push, N<n>=<r> Tag n under name r, M<r> Untag name r (T<n>/U<n>: node-level tag / loses its last name), X<n> delete, G<k.k.k> GC keeping the untagged manifests k,
-         O reopen, Y0/Y1 AutoSaveIndex off/on, W SaveIndex, F<r.r> foreign index + reopen, S observe (stored set, what index.json lists / lists under a name, Predecessors of every key), s the same without index.json *)
+         O reopen, Y0/Y1 AutoSaveIndex off/on, W SaveIndex, K<n> Push of an undecodable manifest, F<r.r> foreign index + reopen, S observe (stored set, what index.json lists / lists under a name, Predecessors of every key), s the same without index.json *)
       (try
         let nu = int_of_string nu in
         let ct = parse_ct cts in
@@ -99,6 +99,7 @@ let () =
           | 'O' -> apply PReopen
           | 'Y' -> applya (ASetAuto (rest = "1"))
           | 'W' -> applya ASaveIndex
+          | 'K' -> applya (ABadPush (arg ()))
           | 'S' | 's' ->
             toks := ("b:" ^ show_ints (List.map int_of_n !st.a_s.o_blobs)) :: !toks;
             if t.[0] = 'S' then begin
